@@ -202,6 +202,12 @@ type exec struct {
 	drained bool // GOAWAY sent
 	closed  bool // transport closed by the plan
 
+	// Per scheduling step (= ops between two quiescent points): did the plan end the context of a call that was
+	// blocked at the step's start, and did it release stream quota (stream finished / limit raised), and how many
+	// calls were blocked at the step's start.
+	stepCtxEnd, stepRelease bool
+	stepBlocked             int
+
 	classes map[string]bool
 	bad     []string
 }
@@ -427,6 +433,7 @@ func (e *exec) doOp(op Op) {
 			c.cancelled = true
 			if c.seenWaiting {
 				e.class("waiter_ctx_cancelled")
+				e.stepCtxEnd = true
 			}
 			c.cancel() // closes ctx.Done(); does not block
 		}
@@ -445,6 +452,7 @@ func (e *exec) doOp(op Op) {
 		if d := c.deadline.Sub(now) + time.Duration(op.N)*time.Millisecond; d > 0 {
 			if op.N == 0 && c.seenWaiting {
 				e.class("slept_to_exact_waiter_deadline")
+				e.stepCtxEnd = true
 			}
 			time.Sleep(d)
 		}
@@ -457,6 +465,7 @@ func (e *exec) finish(c *call, how int) {
 	if w, _ := e.waiting(); w > 0 {
 		e.class("finish_with_waiter")
 	}
+	defer func() { e.stepRelease = true }()
 	if id == 0 { // never reached the wire (orphaned while draining / closed)
 		s.Close(status.Error(codes.Canceled, "cancelled"))
 		return
@@ -473,6 +482,7 @@ func (e *exec) finish(c *call, how int) {
 	case howHalfTrailers:
 		s.Write(nil, nil, &transport.WriteOptions{Last: true})
 		synctest.Wait()
+		e.stepCtxEnd, e.stepRelease = false, false // a quiescent point inside the op
 		e.peer.WriteHeaders(h2peer.Headers{StreamID: id, Fields: h2peer.ResponseHeaders()})
 		e.peer.WriteHeaders(h2peer.Headers{StreamID: id, Fields: h2peer.Trailers(0, ""), EndStream: true})
 	case howTrailersRST:
@@ -484,10 +494,25 @@ func (e *exec) finish(c *call, how int) {
 		hdr := []byte{0, 0, 0, 0, 3}
 		s.Write(hdr, mem.BufferSlice{mem.SliceBuffer([]byte("abc"))}, &transport.WriteOptions{Last: true})
 		synctest.Wait()
+		e.stepCtxEnd, e.stepRelease = false, false // a quiescent point inside the op
 		if st, ok := e.led.Stream(id); ok && !st.InEnd && !st.Closed {
 			e.class("peer_ends_stream_while_client_end_stream_is_flow_blocked")
 		}
 		e.peer.WriteHeaders(h2peer.Headers{StreamID: id, Fields: h2peer.TrailersOnly(0, ""), EndStream: true})
+	}
+}
+
+// stepEnd is called at a quiescent point after check: it classifies the
+// scheduling step that just ended and starts the next one.
+func (e *exec) stepEnd() {
+	if e.stepCtxEnd && e.stepRelease && e.stepBlocked >= 2 {
+		e.class(clsCtxEndInReleaseStep)
+	}
+	e.stepCtxEnd, e.stepRelease, e.stepBlocked = false, false, 0
+	for _, c := range e.unreturned() {
+		if c.seenWaiting && !c.cancelled {
+			e.stepBlocked++
+		}
 	}
 }
 
@@ -560,6 +585,7 @@ func runPlan(t *testing.T, p Plan) (out outcome) {
 			if !op.NoWait {
 				synctest.Wait()
 				e.check(fmt.Sprintf("after op %d (%s)", i, op.K))
+				e.stepEnd()
 			}
 		}
 		synctest.Wait()
@@ -665,6 +691,10 @@ func runPlan(t *testing.T, p Plan) (out outcome) {
 // the server and still counts there (RFC 7540 5.1.2).
 const sigHalfClosed = "c13.server_ended_stream_not_closed_by_client"
 
+// clsCtxEndInReleaseStep: within one scheduling step (no quiescent point in between) the plan ended the context of
+// a blocked NewStream call and released stream quota while at least two calls were blocked.
+const clsCtxEndInReleaseStep = "ctx_end_and_quota_release_in_one_step_with_2_waiters"
+
 // clsTokenDoneCtx: a blocked NewStream call took the quota wake-up although its context had already ended.
 const clsTokenDoneCtx = "token_taken_by_waiter_with_done_context"
 
@@ -686,7 +716,7 @@ func runUnit(t *testing.T, p Plan, tokenRace bool) vk.Result {
 	for _, c := range []string{"limit_lowered_below_open", "limit_lowered_below_open_with_waiter", "limit_zero", "raise_with_waiters", "finish_with_waiter", "goaway_with_waiter", "close_with_waiter",
 		"waiter_blocked_at_limit", "parked_in_check_then_wait_window", "opened_stream_reaching_limit", "open_above_limit_after_ack", "admitted", "failed_deadline", "failed_drain", "failed_closed",
 		"peer_ends_stream_while_client_end_stream_is_flow_blocked",
-		clsTokenDoneCtx, "waiter_ctx_cancelled", "slept_to_exact_waiter_deadline", "failed_cancelled"} {
+		clsTokenDoneCtx, clsCtxEndInReleaseStep, "waiter_ctx_cancelled", "slept_to_exact_waiter_deadline", "failed_cancelled"} {
 		if out.classes[c] {
 			cl = append(cl, c)
 		}
@@ -715,7 +745,7 @@ func runUnit(t *testing.T, p Plan, tokenRace bool) vk.Result {
 	}
 	nt := out.classes["limit_lowered_below_open_with_waiter"] || (out.classes["waiter_blocked_at_limit"] && (out.classes["finish_with_waiter"] || out.classes["raise_with_waiters"]))
 	if tokenRace {
-		nt = out.classes[clsTokenDoneCtx]
+		nt = out.classes[clsTokenDoneCtx] || out.classes[clsCtxEndInReleaseStep]
 	}
 	res := vk.OK(nt, cl...)
 	res.Steps = len(p.Ops)
